@@ -29,7 +29,7 @@ PROPS = {
 PROPS["C01"]["groups_l1"] = MODELLED + ["B:SE_2_3,R1,SE2", "B:R1,SGal3,SO2", "B:SE2,SO3,R2"]
 PROPS["C05"]["groups_l1"] = MODELLED + ["B:SE2,SO3,R2", "B:SE_2_3,R1,SE2", "B:R1,SGal3,SO2"]
 PROPS["C04"] = dict(l1_ops=["rplus", "lplus", "rminus", "lminus", "between"] + l1.ALIASES, l2="C04",
-                    n_l1=(900, 12000), n_l2=(400, 12000), l1_masks=True)
+                    n_l1=(900, 12000), n_l2=(400, 12000), l1_masks=True, custom="c04")
 PROPS["C15"] = dict(l1_ops=[], l1_algo=["interp_slerp", "interp_cubic", "interp_smooth", "phi"], l2_algo="C15",
                     n_l1=(60, 600), n_l2=(10, 200))
 PROPS["C16"] = dict(l1_ops=[], l1_algo=["avg_bi", "avg_w", "avg_fl", "avg_fr"], l2_algo="C16",
@@ -582,7 +582,32 @@ def custom_c12(builds, r, thorough, res):
     return bad, viol, n
 
 
-CUSTOM = {"c14": custom_c14, "c13": custom_c13, "c12": custom_c12, "c19": custom_c19, "c08": custom_c08, "c09": _purity("c09"), "c10": _purity("c10")}
+def custom_c04(builds, r, thorough, res):
+    """the in-place alias `*=` on ALIASED operands (X *= X; destination and operand two objects over the same
+    coefficients) must still be the canonical compose(X, X) — implementation against implementation, bit for bit"""
+    bad, viol, n = [], [], 0
+    k = 12 if thorough else 3
+    exe = builds[True]
+    for g in ALL_GROUPS + ["B:SE2,SO3,R2", "B:R1,SGal3,SO2"]:
+        lines, meta = [], []
+        for _ in range(k):
+            X, tags = gen.element(r, g, norm="valid")
+            for st in "om":
+                for op in ("self_timeseq", "self_timeseq_cv", "self_timeseq_vx"):
+                    lines += [gen.req(True, st, g, op, 0, X), gen.req(True, "o", g, "compose", 0, X + X)]
+                    meta.append((op, st, tags))
+        _, out, _ = vlib.run_lines_parallel(exe, lines)
+        n += len(lines)
+        for i, (op, st, tags) in enumerate(meta):
+            a, b = out[2 * i], out[2 * i + 1]
+            res.add_cells([("alias-on-aliased-operands", g, op, st) + tuple(x.split("/")[0] for x in tags[:2])])
+            if a != b:
+                viol.append(dict(property="C04", group=g, op="*= (" + op + ")", output="value", tags=[st] + tags, request=lines[2 * i],
+                                 what="X *= X through %s differs from X.compose(X): %s vs %s" % (op, a[:60], b[:60]), err=float("inf"), tol=0.0))
+    return bad, viol, n
+
+
+CUSTOM = {"c04": custom_c04, "c14": custom_c14, "c13": custom_c13, "c12": custom_c12, "c19": custom_c19, "c08": custom_c08, "c09": _purity("c09"), "c10": _purity("c10")}
 
 
 def proof_cov(po):
